@@ -145,12 +145,16 @@ def constant_node_from_onnx_constant_op(onnx_op: onnx.OperatorProto) -> Constant
     if (tensor := attrs.get_attr("value", "tensor", None)) is not None:
         const_node = constant_node_from_onnx_initializer(tensor, output_name)
     else:
+        # Saturate int64 attribute values to the int32 range, as for int64
+        # initializers, rather than wrapping (eg. `i64::MAX` meaning "slice to
+        # the end" must not become -1).
+        i32 = np.iinfo(np.int32)
         if (int_ := attrs.get_attr("value_int", "int", None)) is not None:
             shape = []
-            data = np.array(int_).astype(np.int32)
+            data = np.array(int_).clip(i32.min, i32.max).astype(np.int32)
         elif (ints := attrs.get_attr("value_ints", "ints", None)) is not None:
             shape = [len(ints)]
-            data = np.array(ints).astype(np.int32)
+            data = np.array(ints).clip(i32.min, i32.max).astype(np.int32)
         elif (float_ := attrs.get_attr("value_float", "float", None)) is not None:
             shape = []
             data = np.array(float_).astype(np.float32)
